@@ -22,6 +22,11 @@ CLAIMS = {
             "PARTIAL: durability of a returned badger commit and fsync are trusted. Correspondence: hook event order, store contents at the "
             "moment Sign is invoked, the SyncWrites option of the open store, and kill runs of a child process at every hook point of "
             "short histories compared with the model", "5 C03"),
+    "C04": ("Theorems C04_serializable (every reachable, completed world of the lock protocol - any number of requests, key lists and "
+            "interleavings - is a serial execution in commit order with exactly the returned verdicts and the reached store) and "
+            "C04_realtime_order; refutation for first-key-only locking. PARTIAL: sync.Mutex / sync.Map / memory model trusted. "
+            "Correspondence: recording locker + store hooks give the real-time event order of steered concurrent runs, which the model "
+            "must accept as a schedule with the observed verdicts and store; per-request protocol conformance; rivals / lost-update monitor", "5 C04"),
     "C05": ("Theorem C05_domain_separation (all domains of any length via their first four bytes, all admin lists and source addresses, all "
             "fault schedules) on the model; correspondence over every endpoint x prefix class x admin list x source address against the real "
             "signer service; independent monitor of the property on the observed signatures", "5 C05"),
@@ -50,6 +55,10 @@ CLAIMS = {
             "any scheme with verify(sign)=true), C08_scatter_fills_every_index (every n, p); the signing root is computed by the model "
             "(SSZ over SHA-256 on primitive integers) and compared with the root under which the real BLS library verifies the returned "
             "signature for the addressed account; batches over sizes x GOMAXPROCS with every position verified", "5 C08"),
+    "C15": ("Theorems C15_progress (in every reachable world with an unfinished request some thread can step) and C15_terminates (every "
+            "accepted schedule is bounded by 3 x keys + 4 steps per request and a stuck world is a finished one); refutation without the "
+            "locker-wide mutex ((a,b)/(b,a) deadlock). Correspondence as C04 with opposite-order batches and steered lock acquisition, plus "
+            "sustained load under a watchdog", "5 C15"),
     "C18": ("Theorems C18_listing_sound_and_complete (membership in the answer <=> requested known wallet, account present in base or "
             "overlay, name matches, Access permitted), C18_wallet_accounts, C18_created_account_listed; correspondence of the real lister "
             "(service and gRPC handler) as a multiset, before and after dynamic account creation; soundness and completeness also "
